@@ -58,9 +58,14 @@ def _norm(s):
     return re.sub(r"\s+", " ", s).strip()
 
 
-def _expect(body, want_re, what):
+def _expect(body, want_re, what, fn_gen="RenderFn"):
+    """a BODY-shape check: no data is read off the text.  Every function looked at through `_expect` is also TRANSLATED
+    (tools/gen_fn_render.py -> Generated/RenderFn.v; Effects::render in Generated/StyleFn.v) and proved equal to the hand
+    model (Proofs/RenderGen.v / StyleGen.v; C05 names all four generators in gen_deps), so another spelling of the body is
+    not an alarm by itself: the text pin falls back on "the function translator still translates the source"
+    (gen_model.takes_over) and what the code does is decided by those proofs."""
     if not re.fullmatch(want_re, _norm(body)):
-        raise GenError("%s: unexpected shape %r" % (what, _norm(body)[:160]))
+        takes_over(fn_gen, "%s: unexpected shape %r" % (what, _norm(body)[:160]))
 
 
 def _chain(body, accessors, what):
@@ -143,7 +148,7 @@ def gen_render():
     _expect(display_body(eff, "EffectsDisplay"),
             r"for index in self\.0\.index_iter\(\) \{ f\.write_str\(METADATA\[index\]\.escape\)\?; \} Ok\(\(\)\)", "Display for EffectsDisplay")
     effi = _impl(eff, "impl Effects")
-    _expect(_fn(effi, "render", "Effects"), r"EffectsDisplay\(self\)", "Effects::render")
+    _expect(_fn(effi, "render", "Effects"), r"EffectsDisplay\(self\)", "Effects::render", "StyleFn")
     _expect(_fn(effi, "write_to", "Effects"),
             r"for index in self\.index_iter\(\) \{ write\.write_all\(METADATA\[index\]\.escape\.as_bytes\(\)\)\?; \} Ok\(\(\)\)", "Effects::write_to")
     _expect(display_body(sty, "StyleDisplay"), r"self\.0\.fmt_to\(f\)", "Display for StyleDisplay")
